@@ -7,11 +7,17 @@
 namespace std { class verif_str { public: char c[VERIF_STR_CAP]; size_t n;
     verif_str() : n(0) { c[0] = 0; }
     verif_str(const char* s) : n(0) { for (size_t i = 0; i < VERIF_STR_CAP - 1; ++i) { if (s[i] == 0) break; c[i] = s[i]; n = i + 1; } VERIF_LIMIT(s[n] == 0, "string longer than the modelled capacity"); c[n] = 0; }
+    verif_str(const char* s, size_t len) : n(0) { VERIF_LIMIT(len < VERIF_STR_CAP, "string longer than the modelled capacity"); for (size_t i = 0; i < VERIF_STR_CAP - 1; ++i) { if (i >= len) break; c[i] = s[i]; n = i + 1; } c[n] = 0; }
     verif_str(const verif_str& o) : n(o.n) { for (size_t i = 0; i < VERIF_STR_CAP; ++i) c[i] = o.c[i]; }
     verif_str& operator=(const verif_str& o) { n = o.n; for (size_t i = 0; i < VERIF_STR_CAP; ++i) c[i] = o.c[i]; return *this; }
     const char* c_str() const { return c; } size_t size() const { return n; } }; }
 #define string verif_str
 typedef int64_t CAmount;
+static const CAmount COIN = 100000000;
+// other libc number parsers a change might switch to: declared as oracles (arbitrary result, end pointer somewhere in the string), so
+// that such a unit still compiles and the contract - every amount goes through the exact fixed-point parser - decides it
+inline double strtod(const char* s, char** e) { size_t k = nondet_size(); __CPROVER_assume(k < VERIF_STR_CAP); if (e) *e = (char*)s + k; double d; return d; }
+inline double atof(const char* s) { double d; return d; }
 extern char g_dup[VERIF_STR_CAP]; extern int g_dup_live;
 inline char* strndup(const char* s, size_t n) { VERIF_LIMIT(n < VERIF_STR_CAP, "strndup capacity"); for (size_t i = 0; i < VERIF_STR_CAP - 1; ++i) { if (i >= n || s[i] == 0) { g_dup[i] = 0; break; } g_dup[i] = s[i]; } g_dup[VERIF_STR_CAP - 1] = 0; g_dup_live = g_dup_live + 1; return g_dup; }
 inline void free(void* p) { __CPROVER_assert(p == (void*)g_dup && g_dup_live == 1, "free() of exactly the buffer strndup returned, once"); g_dup_live = g_dup_live - 1; }
